@@ -29,6 +29,7 @@ type Case struct {
 	Bound, Oob int
 	HLen       int
 	Opt82      string `json:",omitempty"` // "" | "typical" | "all-empty" | "all-one-byte"
+	HType      int    `json:",omitempty"` // header htype; 0 here = Ethernet (1)
 }
 
 // opt82 builds relay-agent-information variants: whatever sub-options a relay adds, the
@@ -71,6 +72,9 @@ var chaddr = []byte{0x02, 0x11, 0x22, 0x33, 0x44, 0x55}
 // request builds the datagram of a case and the plugin that shapes its reply.
 func request(c Case) []byte {
 	p := pkt.V4{Op: 1, HType: 1, HLen: byte(c.HLen), Xid: 0xfeedbeef, GI: ip4(c.GI), CI: ip4(c.CI)}
+	if c.HType != 0 {
+		p.HType = byte(c.HType)
+	}
 	copy(p.CHAddr[:], chaddr)
 	if c.Bcast {
 		p.Flags = 0x8000
@@ -216,7 +220,7 @@ func run(r *ev.Run) {
 	if r.Quick() && len(idx) > 2 {
 		idx = idx[:2]
 	}
-	r.Rule(fmt.Sprintf("E3 complete decision table through the real HandleMsg4: giaddr x ciaddr in {0,routable,link-local,broadcast} x broadcast flag x reply{OFFER,ACK,NAK by plugin} x yiaddr{0,routable,link-local} x listener{unbound, bound to each of %d interfaces} x receiving interface index; reference = the RFC 2131 4.1 cascade as worded in the property. UDP replies observed at WriteTo, link-level replies as the serialised Ethernet frame. Plus histories: every ordered pair of 16 representative requests (one per cascade rule x two receiving interfaces) on ONE unbound listener and of 8 on one bound listener, both replies judged. Class = cascade rule/pinned/bound/#sent/#frames.", len(idx)))
+	r.Rule(fmt.Sprintf("E3 complete decision table through the real HandleMsg4: giaddr x ciaddr in {0,routable,link-local,broadcast} x broadcast flag x reply{OFFER,ACK,NAK by plugin} x yiaddr{0,routable,link-local} x listener{unbound, bound to each of %d interfaces} x receiving interface index x htype {1, 6, 32, 255} x option 82 variants; reference = the RFC 2131 4.1 cascade as worded in the property. UDP replies observed at WriteTo, link-level replies as the serialised Ethernet frame. Plus histories: every ordered pair of 16 representative requests (one per cascade rule x two receiving interfaces) on ONE unbound listener and of 8 on one bound listener, both replies judged. Class = cascade rule/pinned/bound/#sent/#frames.", len(idx)))
 	r.Assume(fmt.Sprintf("host interfaces %v; 'unbound listener without control message' only for unpinned destinations (no defined answer otherwise, covered by C01); AF_PACKET syscalls after the frame is built are not executed", idx))
 	for _, gi := range addrs {
 		for _, ci := range addrs {
@@ -228,7 +232,7 @@ func run(r *ev.Run) {
 								if bound != 0 && oob != 0 && oob != bound {
 									continue // a bound socket only receives on its interface
 								}
-								c := Case{gi, ci, yi, bc, rep, bound, oob, 6, ""}
+								c := Case{gi, ci, yi, bc, rep, bound, oob, 6, "", 0}
 								if bound == 0 && oob == 0 {
 									// only where the answer is defined: routable destination
 									z := func(s string) bool { return s == "0.0.0.0" }
@@ -243,6 +247,12 @@ func run(r *ev.Run) {
 										c.Opt82 = k
 										eval(r, c)
 									}
+									c.Opt82 = ""
+								}
+								// the cascade does not look at the hardware type the client announces
+								for _, ht := range []int{6, 32, 255} {
+									c.HType = ht
+									eval(r, c)
 								}
 							}
 						}
